@@ -50,3 +50,18 @@ Definition ex_pct' : C.optree :=
 Example C01_classify_agrees_percent_refuted :
   forget ex_pct = Some ex_pct' /\ T.has_percent ex_pct = true /\ fst (fst (fst (T.classify ex_pct))) = 55 /\ C.mode_of (C.classify ex_pct') = Some 48.
 Proof. vm_compute. repeat split; reflexivity. Qed.
+
+(* PARTIAL: the two classifications agree (6-bit field, how the extension word is obtained, kept expression)
+   on forgettable '%'-free operands whose top token is a Number, CharLiteral, Symbol, '.', or a parenthesised
+   expression (register, (reg), relative).  Missing for the full statement
+     forget t = Some t' -> T.has_percent t = false -> tc_view t = cl_view_res (C.classify t')
+   : top constructors Infix, Prefix, Postfix, Call (Prefix with operator '-', '#', '+', '~', '^c' closes with the
+   same script; Prefix '@', Postfix, Call and the hoisted case via hoist_shape are not done). *)
+Theorem C01_classify_agrees_partial : forall t t', forget t = Some t' -> T.has_percent t = false ->
+  simple_top t = true -> tc_view t = cl_view_res (C.classify t').
+Proof. exact classify_agrees_partial. Qed.
+Print Assumptions C01_classify_agrees_partial.
+Example ex_partial_inhabited :
+  simple_top (T.Paren "(" (T.Sym "r3" false)) = true /\
+  tc_view (T.Paren "(" (T.Sym "r3" false)) = Some (11, T.ENone, None).
+Proof. vm_compute. split; reflexivity. Qed.
